@@ -6,7 +6,10 @@ rows = []
 for mp in sorted(glob.glob(os.path.join(HERE, "seeded", "*", "meta.json"))):
     m = json.load(open(mp))
     checks = m.get("checks", {})
-    rows.append((m["id"], m.get("breaks_property"), m.get("valid_seed"), ", ".join(m.get("caught_by", [])) or "—",
+    caught = ", ".join(m.get("caught_by", [])) or "—"
+    if m.get("superseded_by_fix"):
+        caught = ", ".join(m.get("caught_by_at_df7bae5", [])) + f" (before fix {m['superseded_by_fix']}; its trigger programs are invalid since)"
+    rows.append((m["id"], m.get("breaks_property"), m.get("valid_seed"), caught,
                  ", ".join(p for p, v in checks.items() if v["verdict"] != "VIOLATION") or "—", (m.get("needs_to_manifest") or "").replace("\n", " ")))
 with open(os.path.join(HERE, "seeded", "INDEX.md"), "w") as f:
     f.write("# Seeded breaking changes\n\nEach directory holds `patch.diff` (apply with `git -C <worktree> apply`), the seeder's demonstration and `meta.json` "
